@@ -411,8 +411,8 @@ func main() {
 			runHist(c.Hist, c.Kind, st, mk(c.Kind, c.Hist))
 			return
 		}
-		n := r.N(160, 20000)
-		nlong := r.N(2, 100)
+		n := r.N(160, 6000)
+		nlong := r.N(2, 30)
 		total := 2*n + nlong
 		perOp := map[string]int{}
 		perBand := map[string]int{}
